@@ -86,9 +86,12 @@ def run_globs(spec):
             given[G + (c,) + v] = 77          # every child is named in the initial state
     init = nest(given)
     results = {}
-    for mode in ('parts', 'composite', 'store'):
+    for mode in ('parts', 'composite', 'store', 'store_init'):
         try:
-            if mode == 'parts':
+            if mode == 'store_init':
+                c4 = Composite({'processes': dict(procs), 'steps': dict(steps), 'topology': copy.deepcopy(tops)})
+                e = Engine(store=c4.generate_store({}), initial_state=copy.deepcopy(init), display_info=False, emitter='null')
+            elif mode == 'parts':
                 e = Engine(processes=dict(procs), steps=dict(steps) or None, topology=copy.deepcopy(tops),
                            initial_state=copy.deepcopy(init), display_info=False, emitter='null')
             elif mode == 'composite':
@@ -115,12 +118,12 @@ def run_globs(spec):
                     V.check('glob_children', ap in got and _same(got[ap], ds[0]),
                             lambda: ('glob child variable %s declared by a sub-schema: expected default %r, built with %r (%s)' % (
                                 '/'.join(ap), ds[0], got.get(ap, 'MISSING'), mode)))
-    if len(results) == 3:
-        a, b, c = results['parts'], results['composite'], results['store']
-        V.check('entry_points_agree', _eqtree(a, b) and _eqtree(a, c),
+    if len(results) >= 4:
+        a, b, c, d4 = results['parts'], results['composite'], results['store'], results['store_init']
+        V.check('entry_points_agree', _eqtree(a, b) and _eqtree(a, c) and _eqtree(a, d4) and _eqtree(a, results.get('composite_split', a)),
                 lambda: ('the three entry points built different hierarchies',
-                         {'/'.join(k): (a.get(k), b.get(k), c.get(k)) for k in set(a) | set(b) | set(c)
-                          if not (_same(a.get(k), b.get(k)) and _same(a.get(k), c.get(k)))}))
+                         {'/'.join(k): (a.get(k), b.get(k), c.get(k), d4.get(k)) for k in set(a) | set(b) | set(c) | set(d4)
+                          if not (_same(a.get(k), b.get(k)) and _same(a.get(k), c.get(k)) and _same(a.get(k), d4.get(k)))}))
     shared_keys = len({v[0] for v in declared}) < len(declared)
     return {'viol': list(V), 'evals': V.evals, 'nontrivial': len(spec['decls']) >= 2 and shared_keys,
             'classes': ['glob_declarers'], 'summary': {'declarers': len(spec['decls']), 'children': len(spec['children'])}}
@@ -242,10 +245,22 @@ def run(spec):
         cand.setdefault(mpath[:-1] + ('x',), []).append(msch['M']['x']['_default'])
 
     results = {}
-    for mode in ('parts', 'composite', 'store'):
+    for mode in ('parts', 'composite', 'store', 'store_init', 'composite_split'):
         procs, steps, tops = parts()
         try:
-            if mode == 'parts':
+            if mode == 'composite_split':
+                # one half of the initial state comes with the Composite, the other half with the engine
+                ga = {p: v for k, (p, v) in enumerate(sorted(given.items(), key=str)) if k % 2 == 0}
+                gb = {p: v for k, (p, v) in enumerate(sorted(given.items(), key=str)) if k % 2 == 1}
+                e = Engine(composite=Composite({'processes': procs, 'steps': steps, 'topology': tops,
+                                                'state': copy.deepcopy(nest(ga)) if ga else {}}),
+                           initial_state=copy.deepcopy(nest(gb)) if gb else None, display_info=False, emitter='null')
+            elif mode == 'store_init':
+                # the store is generated first, the initial state comes with the engine
+                c4 = Composite({'processes': procs, 'steps': steps, 'topology': tops})
+                e = Engine(store=c4.generate_store({}), initial_state=copy.deepcopy(given_tree) or None,
+                           display_info=False, emitter='null')
+            elif mode == 'parts':
                 e = Engine(processes=procs, steps=steps, topology=tops, initial_state=copy.deepcopy(given_tree) or None,
                            display_info=False, emitter='null')
             elif mode == 'composite':
@@ -306,12 +321,12 @@ def run(spec):
         for vp, ap in ref.items():
             if ap[0].startswith('g'):
                 V.check('glob_children', ap in got, lambda: ('glob child variable missing', '/'.join(ap), mode))
-    if len(results) == 3:
-        a, b, c = results['parts'], results['composite'], results['store']
-        V.check('entry_points_agree', _eqtree(a, b) and _eqtree(a, c),
+    if len(results) >= 4:
+        a, b, c, d4 = results['parts'], results['composite'], results['store'], results['store_init']
+        V.check('entry_points_agree', _eqtree(a, b) and _eqtree(a, c) and _eqtree(a, d4) and _eqtree(a, results.get('composite_split', a)),
                 lambda: ('the three entry points built different hierarchies',
-                         {'/'.join(k): (a.get(k), b.get(k), c.get(k)) for k in set(a) | set(b) | set(c)
-                          if not (_same(a.get(k), b.get(k)) and _same(a.get(k), c.get(k)))}))
+                         {'/'.join(k): (a.get(k), b.get(k), c.get(k), d4.get(k)) for k in set(a) | set(b) | set(c) | set(d4)
+                          if not (_same(a.get(k), b.get(k)) and _same(a.get(k), c.get(k)) and _same(a.get(k), d4.get(k)))}))
 
     # conflicts between two declarations of one variable
     conflict_case(V, spec)
